@@ -20,7 +20,7 @@ ASSUMPTIONS = ["numpy interpolation on the oracle side"]
 CONFIG = {"quick": {"shards": 4, "timeout_s": 600, "batches": 60},
           "thorough": {"shards": 16, "timeout_s": 3000, "batches": 3000}}
 REQUIRED_COUNTERS = ["tabulated_points_checked", "interpolation_checked", "extrapolation_checked", "shape_checks", "compressibility_slope_checks",
-                     "integral_antisymmetry_checks", "integral_additivity_checks", "integral_mean_checks", "mixture_checks",
+                     "integral_antisymmetry_checks", "integral_additivity_checks", "integral_mean_checks", "integral_quadrature_checks", "mixture_checks",
                      "pump_scalar_checks", "pump_array_checks", "pump_reverse_flow_checks", "std_type_rows_checked",
                      "property_class_interextra", "property_class_linear", "property_class_constant", "property_class_polynominal"]
 FLUIDS = ["water", "air", "lgas", "hgas", "hydrogen", "methane", "biomethane_pure", "biomethane_treated"]
@@ -64,7 +64,7 @@ def check_shapes(obs, fn, label, rng, lo, hi):
             obs.violate("scalar_vs_array_value", "%s gives different values for %s and array queries" % (label, kind), label=label)
 
 
-def integral_laws(obs, prop, label, rng, lo, hi, value_fn, exact_additive=True):
+def integral_laws(obs, prop, label, rng, lo, hi, value_fn, exact_additive=True, knots=None):
     import pandas as pd
     for _ in range(6):
         a, b, c = sorted(rng.uniform(lo, hi, 3))
@@ -91,6 +91,15 @@ def integral_laws(obs, prop, label, rng, lo, hi, value_fn, exact_additive=True):
         if abs(iac - (iab + ibc)) > 1e-9 * scale:
             obs.violate("integral_not_additive", "%s: I(a,c)=%.12g but I(a,b)+I(b,c)=%.12g (a=%.6g b=%.6g c=%.6g)"
                         % (label, iac, iab + ibc, a, b, c), label=label)
+        # independent quadrature of the property values (trapezoids; the tabulated points are grid points, so the rule is
+        # exact for interpolated properties)
+        grid = np.unique(np.concatenate([np.linspace(a, c, 201 if knots is not None else 801), [k for k in (knots if knots is not None else []) if a < k < c]]))
+        gv = np.asarray(value_fn(grid), float)
+        quad = float(np.sum((grid[1:] - grid[:-1]) * (gv[1:] + gv[:-1]) / 2))
+        obs.count("integral_quadrature_checks")
+        if abs(iac - quad) > (1e-9 if knots is not None else 2e-5) * (abs(quad) + abs(float(np.max(np.abs(gv))) * (c - a)) + 1e-300):
+            obs.violate("integral_differs_from_quadrature", "%s: integral over [%.6g, %.6g] = %.12g, quadrature of the property values gives %.12g"
+                        % (label, a, c, iac, quad), label=label)
         xs = np.linspace(a, c, 400)
         vals = np.asarray(value_fn(xs), float)
         mean = iac / (c - a) if c > a else None
@@ -128,7 +137,7 @@ def run_library(case, obs):
         if not close(getter(q), ref_interp(x, y, q), rtol=1e-10):
             obs.violate("not_linear_beyond_points", "%s does not extrapolate linearly beyond its table" % label, label=label)
         check_shapes(obs, getter, label, rng, x[0] - span, x[-1] + span)
-        integral_laws(obs, fluid.all_properties[pname], label, rng, x[0] - 0.5 * span, x[-1] + 0.5 * span, getter)
+        integral_laws(obs, fluid.all_properties[pname], label, rng, x[0] - 0.5 * span, x[-1] + 0.5 * span, getter, knots=x)
         obs.count("property_class_interextra")
     slope, offset = np.loadtxt(os.path.join(pdir, "compressibility.txt"))
     der = float(np.loadtxt(os.path.join(pdir, "der_compressibility.txt")))
@@ -199,7 +208,7 @@ def run_batch(case, obs):
     obs.count("interpolation_checked", 30)
     if not close(ie.get_at_value(q), ref_interp(x, y, q), rtol=1e-10):
         obs.violate("not_linear_between_points", "%s is not piecewise linear with linear extrapolation" % lab)
-    integral_laws(obs, ie, lab, rng, x[0] - 50, x[-1] + 50, ie.get_at_value)
+    integral_laws(obs, ie, lab, rng, x[0] - 50, x[-1] + 50, ie.get_at_value, knots=x)
     check_shapes(obs, ie.get_at_value, lab, rng, x[0] - 50, x[-1] + 50)
     obs.count("property_class_interextra")
     slope, offset = float(rng.uniform(-1e-2, 1e-2)), float(rng.uniform(0.5, 2))
